@@ -106,7 +106,7 @@ Lemma upgrade_frame cf st p st' :
     sget k (store_of st' (p_name p)) = upgrade_other (now st) (p_client p) (store_of st (p_name p)) k.
 Proof.
   intros F1. unfold exec.
-  destruct (negb _); [discriminate|]. destruct (negb _); [discriminate|].
+  destruct (negb _); [discriminate|]. destruct (negb _); [discriminate|]. destruct (negb _); [discriminate|].
   destruct (upgrade_client cf (now st) (p_client p) (p_cons p) (store_of st (p_name p))) as [s'| |] eqn:U; cbn; try discriminate.
   intro H; inversion H; subst; clear H. intros k Hk. rewrite store_of_with_same.
   eapply upgrade_client_frame; eassumption.
@@ -142,7 +142,7 @@ Lemma keeper_update_keeps_cons cf tnow h s s' c hh k :
 Proof.
   intros Hc U Hk T Ux Nh. unfold keeper_update in U. rewrite Hc in U.
   destruct (negb (Nat.eqb (status tnow c s) 0)); [discriminate|].
-  destruct (check_header_and_update tnow c h s) as [[[c' cns] s1]| |] eqn:E; cbn in U; try discriminate.
+  destruct (check_header_and_update cf tnow c h s) as [[[c' cns] s1]| |] eqn:E; cbn in U; try discriminate.
   destruct (hdr_height cf h) as [hx|] eqn:Hh; [|discriminate].
   assert (Nx : h_eqb hh hx = false) by (apply h_eqb_neq; congruence).
   inversion U; subst; clear U.
@@ -205,9 +205,10 @@ Proof.
   - (* ETH *)
     destruct et; try discriminate. unfold eth_update in E.
     destruct (get_cons ETH (eh_height cur) s); [|discriminate].
-    destruct (negb hv); [discriminate|].
+    destruct (negb hv); [discriminate|]. destruct (f_eth_rev_check cf && _); [discriminate|].
     destruct (sget (KHIdx (eh_parent hd) (sub64 (snd (eh_height hd)) 1)) s) as [[| | | | | |ph|]|]; try discriminate.
     destruct (negb _); [discriminate|]. destruct (eh_time hd <=? eh_time ph); [discriminate|].
+    destruct (f_eth_old_header cf && _); [discriminate|].
     destruct (eth_prune t tnow s) as [s0| |] eqn:P; cbn in E; try discriminate.
     destruct (eth_is_fork cur hd); [discriminate|]. inversion E; subst; clear E.
     cbn in Hh. inversion Hh; subst; clear Hh.
@@ -216,7 +217,7 @@ Proof.
       destruct p as [h0|]; [|inversion P; subst; auto].
       pose proof (prune_target_spares _ _ _ _ _ _ _ PT Hk T Ux) as N0.
       destruct (get_cons ETH h0 s) as [cs0|]; [|discriminate].
-      destruct (sget (KRootMain (cs_root cs0) (snd h0)) s) as [[| | | | | | |hash n]|]; try discriminate.
+      destruct (sget (KRootMain (hash32 (cs_root cs0)) (snd h0)) s) as [[| | | | | | |hash n]|]; try discriminate.
       inversion P; subst; clear P. rewrite !sget_sdel. cbn [ckey_eqb]. rewrite (h_eqb_neq hh h0) by congruence. auto. }
     destruct K0 as [K1 K2]. unfold eth_install.
     split; rewrite !sget_sset; cbn [ckey_eqb]; rewrite ?Nx; assumption.
@@ -269,7 +270,7 @@ Qed.
 Lemma bsc_gate_after_delay t fx prf cur e vals tr r s h k :
   get_cons BSC h s = Some k -> h_lt (eh_height cur) h = false -> fst h = fst (eh_height cur) ->
   lenN vals / 2 + 1 <= sub64 (snd (eh_height cur)) (snd h) ->
-  gate t fx prf (ClBsc cur e vals tr r) s h = root_gate fx k.
+  gate t fx prf (ClBsc cur e vals tr r) s h = root_gate_evm fx k.
 Proof.
   intros G L R D. cbn. rewrite L, R, N.eqb_refl, G. cbn.
   destruct (N.ltb_spec (sub64 (snd (eh_height cur)) (snd h)) (lenN vals / 2 + 1)); [lia | reflexivity].
@@ -278,7 +279,7 @@ Qed.
 Lemma eth_gate_after_delay t fx prf cur bd tr r s h k :
   get_cons ETH h s = Some k -> h_lt (eh_height cur) h = false -> fst h = fst (eh_height cur) ->
   bd <= sub64 (snd (eh_height cur)) (snd h) ->
-  gate t fx prf (ClEth cur bd tr r) s h = root_gate fx k.
+  gate t fx prf (ClEth cur bd tr r) s h = root_gate_evm fx k.
 Proof.
   intros G L R D. cbn. rewrite L, R, N.eqb_refl, G. cbn.
   destruct (N.ltb_spec (sub64 (snd (eh_height cur)) (snd h)) bd); [lia | reflexivity].
@@ -298,8 +299,8 @@ Proof.
 Qed.
 
 (** * The monitor's update clause accepts every successful update of the model *)
-Lemma check_header_shape tnow c h s c' cns s1 :
-  check_header_and_update tnow c h s = Ok (c', cns, s1) ->
+Lemma check_header_shape cf tnow c h s c' cns s1 :
+  check_header_and_update cf tnow c h s = Ok (c', cns, s1) ->
   match c, h with
   | ClTss _ _, HTss addr rest => c' = ClTss addr rest /\ cns = None
   | ClTm _ _ _ _ _, HTm _ _ k _ => type_of c' = TM /\ cns = Some (as_tm k)
@@ -326,9 +327,10 @@ Proof.
     destruct (snd (eh_height hd) mod e =? lenN v / 2); cbn [obind]; intro H; inversion H; subst; split; eauto.
   - destruct et; try discriminate. unfold eth_update.
     destruct (get_cons ETH (eh_height cur) s); [|discriminate].
-    destruct (negb hv); [discriminate|].
+    destruct (negb hv); [discriminate|]. destruct (f_eth_rev_check cf && _); [discriminate|].
     destruct (sget (KHIdx (eh_parent hd) (sub64 (snd (eh_height hd)) 1)) s) as [[| | | | | |ph|]|]; try discriminate.
     destruct (negb _); [discriminate|]. destruct (eh_time hd <=? eh_time ph); [discriminate|].
+    destruct (f_eth_old_header cf && _); [discriminate|].
     destruct (eth_prune t tnow s); cbn; try discriminate.
     destruct (eth_is_fork cur hd); [discriminate|]. intro H; inversion H; subst. split; eauto.
   - intro H; inversion H; subst. split; reflexivity.
@@ -345,7 +347,7 @@ Proof.
   intro H; inversion H; subst; clear H.
   unfold keeper_update in U. rewrite Hc in U.
   destruct (negb (Nat.eqb _ 0)); [discriminate|].
-  destruct (check_header_and_update (now st) c h (store_of st name)) as [[[c' cns] s1]| |] eqn:E; cbn in U; try discriminate.
+  destruct (check_header_and_update cf (now st) c h (store_of st name)) as [[[c' cns] s1]| |] eqn:E; cbn in U; try discriminate.
   destruct (hdr_height cf h) as [hx|] eqn:Hh; [|discriminate].
   inversion U; subst; clear U.
   apply check_header_shape in E.
@@ -391,8 +393,8 @@ Proof. destruct c, c'; cbn; tauto. Qed.
 Lemma same_params_unexpired t c c' k : same_params c c' -> unexpired t c' k -> unexpired t c k.
 Proof. destruct c, c'; cbn; try tauto; intros ->; auto. Qed.
 
-Lemma check_header_params tnow c h s c' cns s1 :
-  check_header_and_update tnow c h s = Ok (c', cns, s1) -> same_params c c'.
+Lemma check_header_params cf tnow c h s c' cns s1 :
+  check_header_and_update cf tnow c h s = Ok (c', cns, s1) -> same_params c c'.
 Proof.
   destruct c as [l t d y r | cur e v t r | cur b t r | a r];
     destruct h as [trusted hy kk hv | et hd hv | addr rest]; cbn; try discriminate.
@@ -408,9 +410,10 @@ Proof.
     destruct (snd (eh_height hd) mod e =? lenN v / 2); cbn [obind]; intro H; inversion H; subst; reflexivity.
   - destruct et; try discriminate. unfold eth_update.
     destruct (get_cons ETH (eh_height cur) s); [|discriminate].
-    destruct (negb hv); [discriminate|].
+    destruct (negb hv); [discriminate|]. destruct (f_eth_rev_check cf && _); [discriminate|].
     destruct (sget (KHIdx (eh_parent hd) (sub64 (snd (eh_height hd)) 1)) s) as [[| | | | | |ph|]|]; try discriminate.
     destruct (negb _); [discriminate|]. destruct (eh_time hd <=? eh_time ph); [discriminate|].
+    destruct (f_eth_old_header cf && _); [discriminate|].
     destruct (eth_prune t tnow s); cbn; try discriminate.
     destruct (eth_is_fork cur hd); [discriminate|]. intro H; inversion H; subst. reflexivity.
   - intro H; inversion H; subst. exact I.
@@ -422,7 +425,7 @@ Lemma keeper_update_params cf tnow h s s' c :
 Proof.
   intros Hc U. unfold keeper_update in U. rewrite Hc in U.
   destruct (negb (Nat.eqb (status tnow c s) 0)); [discriminate|].
-  destruct (check_header_and_update tnow c h s) as [[[c' cns] s1]| |] eqn:E; cbn in U; try discriminate.
+  destruct (check_header_and_update cf tnow c h s) as [[[c' cns] s1]| |] eqn:E; cbn in U; try discriminate.
   destruct (hdr_height cf h) as [hx|]; [|discriminate]. inversion U; subst; clear U.
   exists c'. split; [|eapply check_header_params; exact E].
   destruct cns; rewrite ?sget_sset; cbn [ckey_eqb]; rewrite ?sget_sset_same; reflexivity.
@@ -539,32 +542,28 @@ Proof.
     destruct (IH _ _ _ K2 Hc1 G1 T1 Hc' Ux) as [G P]. split; [exact G | congruence].
 Qed.
 
-(** * ETH: every consensus state has its root-main entry — in every history of consistent ETH content *)
+(** * ETH: every consensus state has its root-main entry — in every history of ETH content at revision 0 *)
 
-(** What [eth_prune] needs ([store_clean], ETH part).  It is NOT an invariant of the code for arbitrary content
-    (Refuted/C18_hyps.v: a proposal whose consensus state carries another root than its header); it is one when every
-    ETH proposal carries the root of its own header and ETH heights use revision 0 (the root-main keys ignore the
-    revision number). *)
+(** What [eth_prune] needs ([store_clean], ETH part).  Since aa5560b the code ties the consensus state of a proposal to
+    the root of its header and since 1e12297 an update header carries the client's revision number; what is left to
+    assume is that ETH PROPOSALS use revision 0 (the root-main keys ignore the revision number: the same block
+    installed under two revision numbers shares one entry, Refuted/C18_hyps.v). *)
 Definition eth_rooted (s : cstore) : Prop :=
-  forall h cs, get_cons ETH h s = Some cs -> exists hash n, sget (KRootMain (cs_root cs) (snd h)) s = Some (VRefHIdx hash n).
+  forall h cs, get_cons ETH h s = Some cs -> exists hash n, sget (KRootMain (hash32 (cs_root cs)) (snd h)) s = Some (VRefHIdx hash n).
 Definition rev0 (s : cstore) : Prop := forall h v, sget (KCons h) s = Some v -> fst h = 0.
 
-Definition eth_consistent (p : proposal) : Prop :=
-  match p_client p with
-  | ClEth hd _ _ _ => cs_root (p_cons p) = eh_root hd /\ fst (eh_height hd) = 0
-  | _ => True
-  end.
+Definition eth_rev0 (p : proposal) : Prop :=
+  match p_client p with ClEth hd _ _ _ => fst (eh_height hd) = 0 | _ => True end.
 
 Definition op_eth_ok (o : op) : Prop :=
-  match o with
-  | Create p | Upgrade p | Toggle p => eth_consistent p
-  | Update _ (HEvm ETH hd _) _ _ => fst (eh_height hd) = 0
-  | _ => True
-  end.
+  match o with Create p | Upgrade p | Toggle p => eth_rev0 p | _ => True end.
 
 Definition eth_state_ok (st : state) : Prop :=
-  forall n c, sget KClient (store_of st n) = Some (VClient c) -> type_of c = ETH ->
-    rev0 (store_of st n) /\ eth_rooted (store_of st n).
+  forall n c, sget KClient (store_of st n) = Some (VClient c) ->
+    match c with
+    | ClEth cur _ _ _ => fst (eh_height cur) = 0 /\ rev0 (store_of st n) /\ eth_rooted (store_of st n)
+    | _ => True
+    end.
 
 Lemma get_cons_some t h s cs : get_cons t h s = Some cs -> sget (KCons h) s = Some (VCons cs) /\ cs_type cs = t.
 Proof.
@@ -573,7 +572,7 @@ Proof.
 Qed.
 
 Lemma eth_inv_install hd c k s0 :
-  rev0 s0 -> eth_rooted s0 -> fst (eh_height hd) = 0 -> cs_root k = eh_root hd ->
+  rev0 s0 -> eth_rooted s0 -> fst (eh_height hd) = 0 -> hash32 (cs_root k) = hash32 (eh_root hd) ->
   rev0 (sset (KCons (eh_height hd)) (VCons k) (sset KClient (VClient c) (eth_install hd s0))) /\
   eth_rooted (sset (KCons (eh_height hd)) (VCons k) (sset KClient (VClient c) (eth_install hd s0))).
 Proof.
@@ -585,7 +584,7 @@ Proof.
     destruct (h_eqb_spec h (eh_height hd)) as [->|N].
     + intro H; inversion H; subst. rewrite Hk, bytes_eqb_refl, N.eqb_refl. cbn. eauto.
     + intro G. destruct (Rt h cs (get_cons_of _ _ _ _ G T)) as (hash & n & E).
-      destruct (bytes_eqb (cs_root cs) (eh_root hd) && (snd h =? snd (eh_height hd))); [eauto|].
+      destruct (bytes_eqb (hash32 (cs_root cs)) (hash32 (eh_root hd)) && (snd h =? snd (eh_height hd))); [eauto|].
       exists hash, n. exact E.
 Qed.
 
@@ -596,7 +595,7 @@ Proof.
   destruct (prune_target ETH trusting tnow s) as [p| |]; cbn; try discriminate.
   destruct p as [h0|]; [|intro H; inversion H; subst; auto].
   destruct (get_cons ETH h0 s) as [cs0|] eqn:G0; [|discriminate].
-  destruct (sget (KRootMain (cs_root cs0) (snd h0)) s) as [[| | | | | | |hash0 n0]|]; try discriminate.
+  destruct (sget (KRootMain (hash32 (cs_root cs0)) (snd h0)) s) as [[| | | | | | |hash0 n0]|]; try discriminate.
   intro H; inversion H; subst; clear H. split.
   - intros h v. rewrite !sget_sdel. cbn [ckey_eqb]. destruct (h_eqb h h0); [discriminate | apply R0].
   - intros h cs G. apply get_cons_some in G. destruct G as [G T]. revert G.
@@ -612,7 +611,7 @@ Proof.
 Qed.
 
 Lemma fresh_store_eth_ok tnow hd b t r cns :
-  cs_root cns = eh_root hd -> fst (eh_height hd) = 0 ->
+  hash32 (cs_root cns) = hash32 (eh_root hd) -> fst (eh_height hd) = 0 ->
   rev0 (fresh_store tnow (ClEth hd b t r) cns) /\ eth_rooted (fresh_store tnow (ClEth hd b t r) cns).
 Proof.
   intros Hk Hr. split.
@@ -622,40 +621,52 @@ Proof.
     intro H; inversion H; subst. rewrite Hk, bytes_eqb_refl, N.eqb_refl. cbn. eauto.
 Qed.
 
+Lemma roots_agree_eth cf hd b t r p :
+  f_eth_root_check cf = true -> p_client p = ClEth hd b t r -> roots_agree cf p = true ->
+  hash32 (cs_root (p_cons p)) = hash32 (eh_root hd).
+Proof.
+  intros F Pc. unfold roots_agree. rewrite F, Pc. cbn. intro H.
+  destruct (bytes_eqb_spec (hash32 (cs_root (p_cons p))) (hash32 (eh_root hd))); [assumption | discriminate].
+Qed.
+
 Lemma eth_state_ok_step cf st o :
   f_toggle_new cf = true -> f_toggle_clear cf = true -> f_cons_type_check cf = true ->
   f_upgrade_tss_nocons cf = true -> f_tm_upgrade_meta cf = true ->
+  f_eth_root_check cf = true -> f_eth_rev_check cf = true ->
   wf_state st -> op_eth_ok o -> eth_state_ok st -> eth_state_ok (snd (step cf st o)).
 Proof.
-  intros F1 F2 F3 F4 F5 W Ok Inv. unfold step. destruct (exec cf st o) as [st'| |] eqn:E; cbn; try exact Inv.
+  intros F1 F2 F3 F4 F5 F6 F7 W Ok Inv. unfold step. destruct (exec cf st o) as [st'| |] eqn:E; cbn; try exact Inv.
+  pose proof (exec_roots_agree _ _ _ _ E) as RA.
   destruct o as [p|p|p|addr chains wfb|name h signer vb|dt].
   - apply create_spec in E; try assumption. destruct E as (_ & _ & _ & _ & _ & ->).
     intros n c. destruct (bytes_eqb_spec n (p_name p)) as [->|N].
-    + rewrite store_of_with_same, fresh_store_client. intro H; inversion H; subst. intro Te.
-      cbn in Ok. unfold eth_consistent in Ok. destruct (p_client p); try discriminate.
-      destruct Ok. apply fresh_store_eth_ok; assumption.
+    + rewrite store_of_with_same, fresh_store_client. intro H; inversion H; subst.
+      cbn in Ok. unfold eth_rev0 in Ok. destruct (p_client p) as [| |hd b t r|] eqn:Pc; try exact I.
+      split; [exact Ok|]. apply fresh_store_eth_ok; [|exact Ok]. eapply roots_agree_eth; eassumption.
     + rewrite store_of_with_other by exact N. apply Inv.
-  - pose proof E as E0. unfold exec in E.
+  - unfold exec in E.
     destruct (negb (valid_name (p_name p) && p_validate p)); [discriminate|].
-    destruct (negb (types_agree cf p)); [discriminate|].
+    destruct (negb (types_agree cf p)); [discriminate|]. destruct (negb (roots_agree cf p)); [discriminate|].
     destruct (upgrade_client cf (now st) (p_client p) (p_cons p) (store_of st (p_name p))) as [s'| |] eqn:U; cbn in E; try discriminate.
     inversion E; subst; clear E.
     intros n c. destruct (bytes_eqb_spec n (p_name p)) as [->|N].
-    + rewrite store_of_with_same, (upgrade_client_has _ _ _ _ _ _ U). intro H; inversion H; subst. intro Te.
-      cbn in Ok. unfold eth_consistent in Ok.
-      destruct (p_client p) as [| |hd b t r|] eqn:Pc; try discriminate. destruct Ok as [Hk Hr].
+    + rewrite store_of_with_same, (upgrade_client_has _ _ _ _ _ _ U). intro H; inversion H; subst.
+      cbn in Ok. unfold eth_rev0 in Ok.
+      destruct (p_client p) as [| |hd b t r|] eqn:Pc; try exact I.
+      pose proof (roots_agree_eth _ _ _ _ _ _ F6 Pc RA) as Hk.
       unfold upgrade_client in U.
       destruct (sget KClient (store_of st (p_name p))) as [[old| | | | | | |]|] eqn:Ho; try discriminate.
       destruct (ctype_eqb_spec (type_of old) (type_of (ClEth hd b t r))) as [To|]; [|discriminate]. cbn in U.
       rewrite F4 in U. cbn in U. inversion U; subst; clear U.
-      destruct (Inv _ _ Ho To) as [R0 Rt]. unfold put_cons. cbn [latest_of].
+      pose proof (Inv _ _ Ho) as IO. destruct old as [| |cur0 b0 t0 r0|]; try discriminate.
+      destruct IO as (_ & R0 & Rt). split; [exact Ok|]. unfold put_cons. cbn [latest_of].
       apply eth_inv_install; assumption.
     + rewrite store_of_with_other by exact N. apply Inv.
   - apply toggle_spec in E; try assumption. destruct E as (old & _ & _ & _ & _ & _ & _ & ->).
     intros n c. destruct (bytes_eqb_spec n (p_name p)) as [->|N].
-    + rewrite store_of_with_same, fresh_store_client. intro H; inversion H; subst. intro Te.
-      cbn in Ok. unfold eth_consistent in Ok. destruct (p_client p); try discriminate.
-      destruct Ok. apply fresh_store_eth_ok; assumption.
+    + rewrite store_of_with_same, fresh_store_client. intro H; inversion H; subst.
+      cbn in Ok. unfold eth_rev0 in Ok. destruct (p_client p) as [| |hd b t r|] eqn:Pc; try exact I.
+      split; [exact Ok|]. apply fresh_store_eth_ok; [|exact Ok]. eapply roots_agree_eth; eassumption.
     + rewrite store_of_with_other by exact N. apply Inv.
   - unfold exec in E. destruct (negb _); [discriminate|]. inversion E; subst. exact Inv.
   - unfold exec in E. destruct (negb vb); [discriminate|]. destruct (negb _); [discriminate|].
@@ -664,23 +675,27 @@ Proof.
     destruct (keeper_update cf (now st) h (store_of st name)) as [s'| |] eqn:U; cbn in E; try discriminate.
     inversion E; subst; clear E.
     intros n c. destruct (bytes_eqb_spec n name) as [->|N]; [|rewrite store_of_with_other by exact N; apply Inv].
-    rewrite store_of_with_same. intros Hc' Te.
-    destruct (keeper_update_params _ _ _ _ _ _ Hc U) as (c1 & Hc1 & P). rewrite Hc1 in Hc'. inversion Hc'; subst c1; clear Hc'.
-    assert (T0 : type_of c0 = ETH) by (rewrite (same_params_type _ _ P); exact Te).
-    destruct (Inv _ _ Hc T0) as [R0 Rt].
+    rewrite store_of_with_same. intros Hc'.
+    destruct (keeper_update_params _ _ _ _ _ _ Hc U) as (c1 & Hc1 & P).
+    assert (c1 = c) by congruence. subst c1.
+    destruct c0 as [| |cur b t r|]; try (destruct c; try contradiction; exact I).
+    destruct (Inv _ _ Hc) as (Rc & R0 & Rt).
     unfold keeper_update in U. rewrite Hc in U.
     destruct (negb (Nat.eqb _ 0)); [discriminate|].
-    destruct c0 as [| |cur b t r|]; try discriminate.
     destruct h as [trusted hy kk hv | et hd hv | addr rest]; cbn in U; try discriminate.
     destruct et; try discriminate. unfold eth_update in U.
     destruct (get_cons ETH (eh_height cur) (store_of st name)); [|discriminate].
-    destruct (negb hv); [discriminate|].
+    destruct (negb hv); [discriminate|]. rewrite F7 in U. cbn [andb] in U.
+    destruct (N.eqb_spec (fst (eh_height hd)) (fst (eh_height cur))) as [Rv|]; [|discriminate]. cbn [negb] in U.
     destruct (sget (KHIdx (eh_parent hd) (sub64 (snd (eh_height hd)) 1)) (store_of st name)) as [[| | | | | |ph|]|]; try discriminate.
     destruct (negb _); [discriminate|]. destruct (eh_time hd <=? eh_time ph); [discriminate|].
+    destruct (f_eth_old_header cf && _); [discriminate|].
     destruct (eth_prune t (now st) (store_of st name)) as [s0| |] eqn:Pr; cbn in U; try discriminate.
     destruct (eth_is_fork cur hd); [discriminate|]. cbn in U. inversion U; subst; clear U.
     destruct (eth_inv_prune _ _ _ _ R0 Rt Pr) as [R1 Rt1].
-    cbn in Ok. apply eth_inv_install; try assumption. reflexivity.
+    rewrite sget_sset in Hc1. cbn [ckey_eqb] in Hc1. rewrite sget_sset_same in Hc1. inversion Hc1; subst; clear Hc1.
+    assert (Rh : fst (eh_height hd) = 0) by congruence.
+    split; [exact Rh|]. apply eth_inv_install; try assumption. reflexivity.
   - unfold exec in E. inversion E; subst. exact Inv.
 Qed.
 
@@ -690,9 +705,10 @@ Proof. intros n c H. discriminate. Qed.
 Lemma eth_state_ok_run cf os :
   f_toggle_new cf = true -> f_toggle_clear cf = true -> f_cons_type_check cf = true ->
   f_upgrade_tss_nocons cf = true -> f_tm_upgrade_meta cf = true ->
+  f_eth_root_check cf = true -> f_eth_rev_check cf = true ->
   Forall op_eth_ok os -> forall st, wf_state st -> eth_state_ok st -> eth_state_ok (run cf st os).
 Proof.
-  intros F1 F2 F3 F4 F5 Ok. induction Ok as [|o os Ho _ IH]; intros st W Inv; cbn; [exact Inv|].
+  intros F1 F2 F3 F4 F5 F6 F7 Ok. induction Ok as [|o os Ho _ IH]; intros st W Inv; cbn; [exact Inv|].
   apply IH; [apply wf_state_step, W | apply eth_state_ok_step; assumption].
 Qed.
 
@@ -700,6 +716,7 @@ Qed.
 Lemma valid_update_succeeds_reachable cf os t name c h signer :
   f_toggle_new cf = true -> f_toggle_clear cf = true -> f_cons_type_check cf = true ->
   f_upgrade_tss_nocons cf = true -> f_tm_upgrade_meta cf = true -> f_tss_height cf = true ->
+  f_eth_root_check cf = true -> f_eth_rev_check cf = true ->
   Forall op_eth_ok os ->
   let st := run cf (empty_state t) os in
   authorised st name signer ->
@@ -709,14 +726,14 @@ Lemma valid_update_succeeds_reachable cf os t name c h signer :
   header_valid_for (now st) c h (store_of st name) ->
   exists st', step cf st (Update name h signer true) = (0%nat, st') /\ updated c h (store_of st' name).
 Proof.
-  intros F1 F2 F3 F4 F5 F6 Ok st A Hc Hs St V.
+  intros F1 F2 F3 F4 F5 F6 F7 F8 Ok st A Hc Hs St V.
   apply valid_update_succeeds; try assumption.
   assert (Cl : clean_state st) by (apply clean_reachable; try assumption; [apply wf_state_empty | apply clean_state_empty]).
   destruct (Cl _ _ Hc) as (Ac & Ti & _). split; [exact Ac|].
   destruct c as [l tr d y r | cur e v tr r | cur b tr r | a r]; try exact I.
   - apply Ti. reflexivity.
   - assert (E : eth_state_ok st) by (apply eth_state_ok_run; try assumption; [apply wf_state_empty | apply eth_state_ok_empty]).
-    apply (E _ _ Hc). reflexivity.
+    apply (E _ _ Hc).
 Qed.
 
 (** * [valid_name] is the rule of host/validate.go, regenerated on every run (Gen/KeysGen.v) *)
